@@ -8,7 +8,7 @@ CONSTANTS
   AvailSet <- A2to12
   IndSet = {0}
   AlignMode = 0
-  Pool <- PoolTiny
+  Pool <- PoolMid
 INVARIANT TypeOK
 INVARIANT InvSucceeds
 INVARIANT InvFits
